@@ -214,6 +214,58 @@ Theorem C14_wire_enabler :
 Proof. exact wire_enabler. Qed.
 Print Assumptions C14_wire_enabler.
 
+(* ---- the core composition under the logger (Model.v, section Cores) ----
+   The Logger's core is a stack: the observer, eager With pushed down to it, a lazyWithCore per
+   WithLazy, and any wrapper installed with WithOptions(WrapCore(..)) before, between or after them:
+   self-registering forwarders (Check adds the wrapper itself, Write forwards to the embedded core --
+   the only way lazyWithCore.Write is ever reached), embedding wrappers, Tee, RegisterHooks,
+   NewIncreaseLevelCore.  For EVERY such history in which no forwarder sits above a hooked core, an
+   entry written with fields fs is recorded by the observer exactly once, with
+   context ++ (fields of every With/WithLazy, in order) ++ fs. *)
+Theorem C14_core_deliver :
+  forall F (ks : list (cstep F)) (ctx fs : list F),
+  ks_ok F false ks = true ->
+  deliver F (build F (CObs ctx) ks) fs = [ctx ++ ks_fields F ks ++ fs].
+Proof. exact build_deliver. Qed.
+Print Assumptions C14_core_deliver.
+
+(* With and WithLazy deliver the same context through every core composition *)
+Theorem C14_lazy_is_eager :
+  forall F (ks : list (cstep F)) (ctx fs : list F),
+  ks_ok F false ks = true ->
+  deliver F (build F (CObs ctx) ks) fs = deliver F (build F (CObs ctx) (ks_eager F ks)) fs.
+Proof. exact lazy_is_eager. Qed.
+Print Assumptions C14_lazy_is_eager.
+
+(* the delivered context does not depend on the core composition: the stack built by a history of
+   With / WithLazy / enabler changes / WrapCore steps delivers the context of the flat logger that
+   [run] and [spec] use (which ignore the WrapCore steps), for the call's entry and for every diagnostic *)
+Theorem C14_core_composition_transparent :
+  forall V F (as_field : V -> option F) is_error as_string any_fld named_error array_invalid
+         (lg : logger F) (steps : list (step V)) (fs : list F),
+  let ks := ksteps_of V F as_field is_error as_string any_fld named_error steps in
+  ks_ok F false ks = true ->
+  deliver F (build F (CObs (lg_ctx lg)) ks) fs =
+  [lg_ctx (fst (spec_withs V F as_field is_error as_string any_fld named_error array_invalid lg steps)) ++ fs].
+Proof. exact core_composition_transparent. Qed.
+Print Assumptions C14_core_composition_transparent.
+
+(* ... and the model's observation of a history is that of the history without its WrapCore steps *)
+Theorem C14_wraps_erasable :
+  forall V F (as_field : V -> option F) is_error as_string any_fld named_error array_invalid
+         (steps : list (step V)) (lg : logger F) (c : call V),
+  run V F as_field is_error as_string any_fld named_error array_invalid lg steps c
+  = run V F as_field is_error as_string any_fld named_error array_invalid lg (erase_wraps V steps) c.
+Proof. exact run_erase_wraps. Qed.
+Print Assumptions C14_wraps_erasable.
+
+(* the limit (zapcore/hook.go: "our downstream had a chance to register itself"): a forwarder
+   directly above a hooked core writes nothing -- outside [ks_ok], never generated *)
+Theorem C14_forward_over_hooked_loses :
+  forall F (ctx fs : list F), deliver F (CWrap WFwd (CWrap WHook (CObs ctx))) fs = [].
+Proof. exact fwd_over_hook_loses. Qed.
+Print Assumptions C14_forward_over_hooked_loses.
+
 (* messages.  print-style = Sprint (given Sprint() = "" and Sprint(s) = s); println-style =
    Sprintln without its newline; printf-style = template when there are no arguments, Sprintf
    otherwise -- PARTIAL: proved for template <> "" \/ args = [] *)
@@ -291,3 +343,20 @@ Proof. repeat constructor. Qed.
 
 Example C14_example_fmt_facts : fmt_facts sx w_as_string (dec_call ex_case) /\ not_empty_template sx (dec_call ex_case).
 Proof. split; exact I. Qed.
+
+(* the composition of seed c14i: WithLazy(ex_args...) and THEN a self-registering forwarder; also a
+   forwarder below, a Tee and an IncreaseLevel core between, a hook on top.  The model's observation
+   is the one without the wrappers (7 entries), the history is well formed, and the core stack
+   delivers the three well-formed With fields followed by the written field *)
+Definition wrap_case (steps : list sx) : sx :=
+  SL [ SL [SZ 1; SZ (-1)]; SZ 0; SL steps;
+       SL [SZ 0; SZ 0; SB [x6d]; SL ex_args; SB []; SB []; SB [x0a]; SZ 0] ].
+Definition wrap_steps : list sx :=
+  [SL [SZ 2; SZ 0]; SL [SZ 2; SZ 2]; SL [SZ 0; SZ 1; SL ex_args]; SL [SZ 2; SZ 0]; SL [SZ 2; SZ 4]; SL [SZ 2; SZ 3]].
+Example C14_example_wrap :
+  model (wrap_case wrap_steps) = model ex_case_lazy_only /\
+  spec (wrap_case wrap_steps) (model (wrap_case wrap_steps)) = true /\
+  ks_ok sx false (w_ksteps_of (dec_withs (wrap_case wrap_steps))) = true /\
+  ks_ok sx false (w_ksteps_of (dec_withs (wrap_case [SL [SZ 2; SZ 3]; SL [SZ 2; SZ 0]]))) = false /\
+  (forall x, map (@length sx) (deliver sx (build sx (CObs []) (w_ksteps_of (dec_withs (wrap_case wrap_steps)))) [x]) = [4]).
+Proof. repeat split; vm_compute; reflexivity. Qed.
